@@ -27,6 +27,20 @@ Several slabs: spec/MC_CloudsSlabs.tla (2..3 decks / grey / Lee hazes with their
            Every event of every binding carries `frame`: the exposed arrays of the model (EXPOSED) and the
            wavenumber grid handed to prepare() are re-read after prepare() / model() and compared with private
            copies (clause model_arrays_untouched).
+Routes (round 4): spec/MC_CloudsRoutes.tla -- what is INTEGRATED must obey the declared range on every route by which a
+           contribution reaches the path integral: prepare() / model() / model_contrib() (the yielded arrays are summed
+           into sigma_xsec) and the caller-iterated prepare_each() / model_full_contrib() (the path integral reads
+           whatever sigma_xsec holds at the yield), at every use of a long-lived object whose bounds are changed through
+           its setters.  Expected counterexamples: the generator leaves its working (reversed) array / nothing in the
+           attribute; both are invisible on the routes of the summing mechanism (MC_CloudsRoutes_blind.cfg holds).
+           Binding A'': TLC-simulated sequences of two uses (route, bounds) replayed on ONE real object in one real model;
+           the random events of binding B draw their route as well.  Every haze / deck event carries `route`.
+Partial layers (round 4): each contribution is bound to ITS documented partial-layer rule (clause partial_layer_rule):
+           the grey haze weights with the covered fraction of the layer in log pressure (Clouds!FlatFrac, exact rationals
+           exported by TLC: 1e-12 on the exported grids; on random grids TLC re-computes the fraction from the logged
+           positions with the tolerance their rounding implies, Clouds!FlatRuleOk), the Lee haze selects by layer pressure
+           (LeeMask / LeeRuleOk).  MC_Clouds: WindowExtentConserved, FlatIsCoveredFraction; expected counterexample
+           FlatRule = "edges" (only the outermost selected layers weighted; a window inside one layer loses a bound).
 Binding C: spec/Functional.tla walks (harness/history.py) on one long-lived model with a deck / grey haze /
            Lee haze: pressure range, temperature, cloud and haze bounds changed through model[<fitting
            parameter>]; sigma_xsec, transmittance and depth must equal those of a freshly built model.
@@ -46,8 +60,10 @@ WN = np.array([600.0, 1100.0, 2500.0, 4000.0, 9000.0])
 COMB_CM2 = [3.0e-17, 1.0e-29, 3.0e-17, 1.0e-29, 1.0e-18]     # line cores / windows of the comb absorber
 STATS = dict(mixed_layers=0, mix_events=0, licensed_layers=0)
 HAZE_CLAUSES = ['haze_evaluates', 'haze_wellformed', 'haze_finite_nonnegative', 'none_outside_window',
-                'declared_magnitude_inside', 'partial_within_interval', 'unset_means_whole_atmosphere',
+                'declared_magnitude_inside', 'partial_within_interval', 'partial_layer_rule', 'unset_means_whole_atmosphere',
                 'declared_wavelength_law']
+# routes by which a contribution reaches the path integral (MC_CloudsRoutes!Routes)
+ROUTES = ('prepare', 'model', 'contrib', 'each', 'full')
 DECK_CLAUSES = ['opaque_at_and_below_deck', 'untouched_above']
 DECK_MODEL_CLAUSES = ['model_opaque_at_and_below_deck', 'model_untouched_above', 'depth_at_least_opaque_integral']
 MIX_CLAUSES = ['mix_wellformed', 'model_transmittance_is_product']
@@ -212,6 +228,62 @@ class World:
         return np.array(c.sigma_xsec, dtype=float)
 
 
+    def prepare_each(self, c):
+        """route "each": the caller iterates the generator (as model_full_contrib does) and the path integral reads
+        whatever the attribute sigma_xsec holds at the yield -> that array"""
+        self.clear()
+        self.model.initialize_profiles()
+        wn = WN.copy()
+        held, ny = None, 0
+        try:
+            for _name, _comp in c.prepare_each(self.model, wn):
+                ny += 1
+                held = np.array(c.sigma_xsec, dtype=float)
+        finally:
+            self.check_frame()
+            if not same_array(wn, WN):
+                self.touched.add('wngrid_argument')
+        if ny != 1:
+            raise ValueError('prepare_each yielded %d components' % ny)
+        return held
+
+    def entry_rows(self, c, entry):
+        """routes "contrib" / "full": model_contrib() / model_full_contrib() of the model holding the gas absorber and c
+        -> (the array c holds afterwards, transmittance of the spectrum computed with c alone)"""
+        self.clear()
+        self.model.contribution_list = [self.absorption, c]
+        self.model.contribution_list.sort(key=lambda x: x.order)
+        try:
+            if entry == 'contrib':
+                _, d = self.model.model_contrib()
+                tr = np.array(d[c.name][1], dtype=float)
+            else:
+                _, d = self.model.model_full_contrib()
+                comps = d[c.name]
+                if len(comps) != 1:
+                    raise ValueError('model_full_contrib returned %d components for %s' % (len(comps), c.name))
+                tr = np.array(comps[0][2], dtype=float)
+            lst = list(self.model.contribution_list)
+            if len(lst) != 2 or self.absorption not in lst or c not in lst:
+                raise ValueError('%s left the model with the contributions %r' % (entry, [x.name for x in lst]))
+        finally:
+            self.model.contribution_list = [self.absorption]
+            self.check_frame()
+        return np.array(c.sigma_xsec, dtype=float), tr
+
+    def sigma_by_route(self, c, route):
+        """-> (sigma the path integral reads on that route, rows of the spectrum with c alone or None)"""
+        if route in ('prepare', 'model'):
+            return self.prepare(c), None
+        if route == 'each':
+            return self.prepare_each(c), None
+        return self.entry_rows(c, route)
+
+
+def route_tag(route, use=1):
+    return ('' if route in ('prepare', 'model') else ':route=' + route) + ('' if use == 1 else ':use%d' % use)
+
+
 def lee_magnitude(radius_um, q, mix):
     """Documented Lee et al. law: Qext = 5 / (Q x^-4 + x^0.2), x = 2 pi a / lambda; sigma = Qext pi a^2 mix (m^2)."""
     out = []
@@ -295,15 +367,22 @@ def mix_event(world, eid, c):
     return e
 
 
-def haze_event(world, eid, kind, lev_pos, b, t, pb, pt, par, run_model, mix=False, reuse=None):
-    """Drive the real contribution; log what happened."""
+def haze_event(world, eid, kind, lev_pos, b, t, pb, pt, par, run_model, mix=False, reuse=None, route='prepare', cen2=None, pu=1):
+    """Drive the real contribution through `route`; log what happened.  cen2: twice the positions of the layer
+    pressures (default: mid-points of the level positions), pu: uncertainty of the positions (1 rounded, 0 exact)."""
     X = world.X
-    e = dict(ev='haze', id=eid, kind=kind, lev=lev_pos, b=b, t=t, S=S, raised=False, model=False, ms=[], rowsame=[], rowle=[], frame=[])
+    if cen2 is None:
+        cen2 = [lev_pos[k] + lev_pos[k + 1] for k in range(len(lev_pos) - 1)]
+    e = dict(ev='haze', id=eid, kind=kind, lev=lev_pos, b=b, t=t, S=S, raised=False, model=False, ms=[], rowsame=[], rowle=[], frame=[],
+             cen2=cen2, pu=pu, route=route)
     info = dict(pb=pb, pt=pt, par=par)
+    if route not in ('prepare', 'model'):
+        info['route'] = route
     world.touched = set()
+    rows = None
     try:
         c, mag = make_haze(X, kind, pb, pt, par, reuse)
-        sigma = world.prepare(c)
+        sigma, rows = world.sigma_by_route(c, route)
     except Exception as ex:      # an exception is an outcome of the code under test, judged by the spec
         e['raised'] = True
         e['frame'] = sorted(world.touched)
@@ -314,7 +393,16 @@ def haze_event(world, eid, kind, lev_pos, b, t, pb, pt, par, run_model, mix=Fals
         e['ms'] = [[]]
         return e, info, sigma, mag
     e['ms'] = scaled_rows(sigma, mag)
-    if run_model:
+    if rows is not None:
+        # the spectrum the entry point computed with the haze alone: a row is "the same as without the haze" when it is 1
+        if rows.ndim == 2 and rows.shape[0] == world.n:
+            e['model'] = True
+            e['rowsame'] = [bool(np.all(rows[k] == 1.0)) for k in range(world.n)]
+            e['rowle'] = [bool(np.all(rows[k] <= 1.0)) for k in range(world.n)]
+        else:
+            e['ms'] = [[]]
+            info['malformed'] = 'transmittance of shape %r' % (rows.shape,)
+    elif run_model and route in ('prepare', 'model'):
         try:
             depth0, tr0 = world.clear()
             depth1, tr1 = world.with_contribution(c)
@@ -332,7 +420,7 @@ def haze_event(world, eid, kind, lev_pos, b, t, pb, pt, par, run_model, mix=Fals
     return e, info, sigma, mag
 
 
-def deck_event(world, eid, cen2, deckpos, pdeck, run_model, mix=False, reuse=None):
+def deck_event(world, eid, cen2, deckpos, pdeck, run_model, mix=False, reuse=None, route='prepare'):
     X = world.X
     if reuse is None:
         c = X['SimpleCloudsContribution'](clouds_pressure=pdeck)
@@ -341,12 +429,15 @@ def deck_event(world, eid, cen2, deckpos, pdeck, run_model, mix=False, reuse=Non
         c.cloudsPressure = pdeck
     world.touched = set()
     info = dict(pdeck=pdeck)
+    if route not in ('prepare', 'model'):
+        info['route'] = route
     try:
-        sigma = world.prepare(c)
+        sigma = world.sigma_by_route(c, route)[0]
     except Exception as ex:      # an outcome of the code under test: no layer gets a class, the deck clauses fail
         sigma = None
         info['exception'] = repr(ex)[:200]
     e = deck_record(eid, cen2, deckpos, sigma, world.n)
+    e['route'] = route
     if run_model:
         n = world.n
         e['model'] = True
@@ -417,7 +508,7 @@ def slab_cls(sp, grid, lev_pos, hist=''):
                                    sp.get('ct') or bclass(sp['t'], lev_pos), ':inverted' if inv else '')
 
 
-def slabs_event(world, eid, specs, lev_pos, cen2, grid, with_abs, hist='', reuse=None):
+def slabs_event(world, eid, specs, lev_pos, cen2, grid, with_abs, hist='', reuse=None, pu=1):
     """SEVERAL clouds / hazes in ONE model (specs: kind + own bounds / deck + magnitude each): model() with all of
     them in the listed order, in the reversed order (and a rotation for three), with or without the band-
     saturating absorber (first / last in the list).  After every such run the sigma_xsec EVERY slab holds is
@@ -462,7 +553,7 @@ def slabs_event(world, eid, specs, lev_pos, cen2, grid, with_abs, hist='', reuse
                     se = deck_record(eid + sub, cen2, sp['deckpos'], sigma, world.n)
                 else:
                     se = dict(ev='haze', id=eid + sub, kind=sp['kind'], lev=lev_pos, b=sp['b'], t=sp['t'], S=S, raised=False,
-                              model=False, ms=[[]], rowsame=[], rowle=[], frame=[])
+                              model=False, ms=[[]], rowsame=[], rowle=[], frame=[], cen2=cen2, pu=pu, route='model')
                     if sigma is not None and sigma.shape == (world.n, len(WN)):
                         se['ms'] = scaled_rows(sigma, mag)
                 before = [specs[objs_index(objs, x)]['kind'] for x in prep[:prep.index(c)]]
@@ -485,7 +576,7 @@ def objs_index(objs, c):
     raise Machinery('contribution not in the list')
 
 
-def exact_checks(ctx, e, adm, sigma, mag, cls, vec):
+def exact_checks(ctx, e, adm, sigma, mag, cls, vec, f=None):
     """Python-side sharpening of the TLC verdict: exactly zero outside, 1e-12 inside (skipped for the
     empty-window reading of inverted bounds, which TLC has accepted)."""
     if sigma is None or e['raised'] or sigma.shape[0] != len(adm):
@@ -500,6 +591,19 @@ def exact_checks(ctx, e, adm, sigma, mag, cls, vec):
             ok = bool(np.all(np.abs(sigma[k] / mag - 1.0) <= 1e-12))
             ctx.verdict('declared_magnitude_inside', ok, cls=cls + ':1e-12',
                         detail='layer %d wholly inside: sigma/declared = %r' % (k, (sigma[k] / mag).tolist()), vector=vec)
+        elif f is not None:
+            # a partial layer: the contribution's documented rule, exact rational from TLC (FlatFrac / LeeMask).  The
+            # fraction is a quotient of differences of log10 of exposed pressures (|log10 P| <= 7, each within 1e-15)
+            # by a layer width >= 1 dex on these grids: 1e-12 absolute is three decades above its rounding
+            want = f[k][0] / f[k][1]
+            ok = bool(np.all(np.abs(sigma[k] / mag - want) <= 1e-12))
+            if e['kind'] == 'lee' and any(x['set'] and 2 * x['x'] == e['cen2'][k] for x in (e['b'], e['t'])):
+                # a declared bound that coincides with the layer pressure (measure zero): selected or not, both readings pass
+                ok = ok or bool(np.all(sigma[k] == 0.0))
+            ctx.verdict('partial_layer_rule', ok, cls=cls + ':1e-12',
+                        detail='layer %d partly inside the window: sigma/declared = %r, documented rule (%s) gives %d/%d'
+                               % (k, (sigma[k] / mag).tolist()[:3], 'covered fraction of the layer in log pressure' if e['kind'] == 'flat'
+                                  else 'layer selected by its layer pressure', f[k][0], f[k][1]), vector=vec)
 
 
 def bclass(b, lev_pos):
@@ -605,18 +709,18 @@ def run_vectors(ctx, vecs, X, rng):
             else:
                 kind = v['kind']
                 e, info, sigma, mag = haze_event(world, eid, kind, lev_pos, v['b'], v['t'], bound_value(v['b'], pos2p),
-                                                 bound_value(v['t'], pos2p), pars[kind], True, mix=mix)
+                                                 bound_value(v['t'], pos2p), pars[kind], True, mix=mix, pu=0)
                 cls = haze_cls(kind, pclass, v['b'], v['t'], lev_pos)
                 meta[eid] = (cls, dict(v, pclass=pclass), info)
                 events.append(e)
-                post.append((e, v['adm'], sigma, mag, cls, dict(v, pclass=pclass)))
+                post.append((e, v['adm'], sigma, mag, cls, dict(v, pclass=pclass), v['f']))
             m = info.pop('_mix', None)
             if m is not None:
                 meta[m['id']] = (cls + ':with-band-absorber', dict(v, pclass=pclass, mix=True), dict(info))
                 events.append(m)
     judge(ctx, events, meta, 'vectors')
-    for e, adm, sigma, mag, cls, vec in post:
-        exact_checks(ctx, e, adm, sigma, mag, cls, vec)
+    for e, adm, sigma, mag, cls, vec, f in post:
+        exact_checks(ctx, e, adm, sigma, mag, cls, vec, f)
     ctx.add_sample(dict(vector_event=events[0]))
     return len(events)
 
@@ -637,14 +741,14 @@ def slab_specs_from_vector(v, pos2p):
             specs.append(dict(kind='deck', deckpos=d, pdeck=pos2p(d), dc=dc))
         else:
             specs.append(dict(kind=sl['kind'], b=sl['b'], t=sl['t'], pb=bound_value(sl['b'], pos2p), pt=bound_value(sl['t'], pos2p),
-                              par=SLAB_PARS[sl['kind']][j % 3], adm=sl['adm'], inv=sl['inv']))
+                              par=SLAB_PARS[sl['kind']][j % 3], adm=sl['adm'], inv=sl['inv'], f=sl.get('f')))
     return specs, cen2
 
 
 def slab_vector_events(X, v, pclass, with_abs, eid, cache):
     world = world_for_grid(X, v['lev'], pclass, cache)
     specs, cen2 = slab_specs_from_vector(v, pos2p_factory(world, v['lev']))
-    e, info, subs = slabs_event(world, eid, specs, v['lev'], cen2, pclass, with_abs)
+    e, info, subs = slabs_event(world, eid, specs, v['lev'], cen2, pclass, with_abs, pu=0)
     kinds = '+'.join(sp['kind'] for sp in specs)
     return e, 'slabs:%s:%s%s' % (pclass, kinds, ':with-band-absorber' if with_abs else ''), info, subs, specs
 
@@ -672,10 +776,70 @@ def run_slab_vectors(ctx, X, nwalks):
                 meta[se['id']] = (scls, dict(base, sub=sub), sinfo)
                 events.append(se)
                 if se['ev'] == 'haze':
-                    post.append((se, specs[idx]['adm'], sigma, mag, scls, dict(base, sub=sub, inv=specs[idx]['inv'])))
+                    post.append((se, specs[idx]['adm'], sigma, mag, scls, dict(base, sub=sub, inv=specs[idx]['inv']), specs[idx].get('f')))
     ctx.traces += len(vecs)
     ctx.add_sample(dict(slabs_vector=vecs[0]))
     ctx.note("binding A': %d TLC-generated lists of 2..3 slabs in one model, %d events (judged together with the random events)" % (len(vecs), len(events)))
+    return events, meta, post
+
+
+# --------------------------------------------------------------------------- binding A'': route sequences generated by TLC
+def route_vector_events(X, v, pclass, eid, cache):
+    """One behaviour of MC_CloudsRoutes: ONE contribution object in one model, used twice -- its bounds set through the
+    setters behind the fitting parameters, then evaluated through the listed route -> [(event, cls, info, adm, sigma, mag, f, inv)]"""
+    world = world_for_grid(X, v['lev'], pclass, cache)
+    lev_pos = v['lev']
+    pos2p = pos2p_factory(world, lev_pos)
+    n = len(lev_pos) - 1
+    cen2 = [lev_pos[k] + lev_pos[k + 1] for k in range(n)]
+    out, obj = [], None
+    for j, u in enumerate(v['uses']):
+        uid = '%s:u%d' % (eid, j)
+        tag = route_tag(u['route'], j + 1)
+        if v['kind'] == 'deck':
+            d = u['deck']
+            if obj is None:
+                obj = X['SimpleCloudsContribution'](clouds_pressure=pos2p(d))
+            e, info = deck_event(world, uid, cen2, d, pos2p(d), u['route'] == 'model', reuse=obj, route=u['route'])
+            dc = 'below-surface' if 2 * d > cen2[0] else ('above-top' if 2 * d <= cen2[-1] else ('on-layer-pressure' if 2 * d in cen2 else 'inside'))
+            out.append((e, 'deck:%s:%s%s' % (pclass, dc, tag), info, None, None, None, None, False))
+        else:
+            par = SLAB_PARS[v['kind']][j % 3]
+            pb, pt = bound_value(u['b'], pos2p), bound_value(u['t'], pos2p)
+            if obj is None:
+                obj = make_haze(X, v['kind'], pb, pt, par)[0]
+            e, info, sigma, mag = haze_event(world, uid, v['kind'], lev_pos, u['b'], u['t'], pb, pt, par, u['route'] == 'model',
+                                             reuse=obj, route=u['route'], pu=0)
+            out.append((e, haze_cls(v['kind'], pclass, u['b'], u['t'], lev_pos) + tag, info, u['adm'], sigma, mag, u['f'], u['inv']))
+    return out
+
+
+def run_route_vectors(ctx, X, nwalks, pre):
+    """Binding A'' (MC_CloudsRoutes): sequences of two uses (route, bounds / deck) of one long-lived contribution object"""
+    res = run_tlc('MC_CloudsRoutes', 'SIM_CloudsRoutes.cfg', workers=1, simulate='num=%d' % nwalks, depth=5, seed=ctx.seed + 23)
+    ctx.add_tlc('simulate-routes', res, counts=False)
+    vecs = res.tagged('ROUTES')
+    if res.violated or len(vecs) < nwalks // 2:
+        raise Machinery('MC_CloudsRoutes simulation: %d behaviours, violated=%r' % (len(vecs), res.violated))
+    events, meta, post = pre
+    cache, count = {}, {}
+    for j, v in enumerate(vecs):
+        n = len(v['lev']) - 1
+        sp = {v['lev'][k] - v['lev'][k + 1] for k in range(n)}
+        pclass = 'simple' if (len(sp) == 1 and j % 2) else 'levels'
+        for u, (e, cls, info, adm, sigma, mag, f, inv) in enumerate(route_vector_events(X, v, pclass, 'T%d:%s' % (j, pclass), cache)):
+            vec = dict(routevec=v, pclass=pclass, use=u, inv=inv)
+            meta[e['id']] = (cls, vec, info)
+            events.append(e)
+            count[v['uses'][u]['route']] = count.get(v['uses'][u]['route'], 0) + 1
+            if e['ev'] == 'haze':
+                post.append((e, adm, sigma, mag, cls, vec, f))
+    for r in ROUTES:
+        if count.get(r, 0) < 3:
+            raise Machinery('vacuous: only %d simulated uses through route %s' % (count.get(r, 0), r))
+    ctx.traces += len(vecs)
+    ctx.add_sample(dict(routes_vector=vecs[0]))
+    ctx.note("binding A'': %d TLC-generated sequences of two uses of one contribution object, by route %r" % (len(vecs), dict(sorted(count.items()))))
     return events, meta, post
 
 
@@ -796,12 +960,16 @@ def random_event(world, grid, esub, eid, run_model, mix=False, long_lived=False,
         cls = 'slabs:%s%s:%s%s' % (grid, hist, '+'.join(sp['kind'] for sp in specs), ':with-band-absorber' if with_abs else '')
         return e, cls, recipe, info
     r = rng.random()
+    # the route by which the contribution reaches the path integral (MC_CloudsRoutes!Routes); the routes through an entry
+    # point of the model run the model
+    q = rng.random()
+    route = 'prepare' if q < 0.5 else 'each' if q < 0.8 else ('contrib' if q < 0.9 else 'full') if run_model else 'each'
     if r < 0.25:
         p, dc = random_deck(rng, world, cen2)
         if long_lived and 'deck' not in reuse:
             reuse['deck'] = world.X['SimpleCloudsContribution'](clouds_pressure=p)
-        e, info = deck_event(world, eid, cen2, lpos(p), p, run_model and rng.random() < 0.5, mix=mix, reuse=reuse.get('deck'))
-        return e, 'deck:%s%s:%s' % (grid, hist, dc), recipe, info
+        e, info = deck_event(world, eid, cen2, lpos(p), p, run_model and rng.random() < 0.5, mix=mix, reuse=reuse.get('deck'), route=route)
+        return e, 'deck:%s%s:%s%s' % (grid, hist, dc, route_tag(route)), recipe, info
     kind = 'flat' if r < 0.65 else 'lee'
     b, pb, cb = random_bound(rng, world, kind)
     t, pt, ct = random_bound(rng, world, kind)
@@ -809,9 +977,9 @@ def random_event(world, grid, esub, eid, run_model, mix=False, long_lived=False,
     if long_lived and kind not in reuse:
         reuse[kind] = make_haze(world.X, kind, pb, pt, par)[0]
     e, info, sigma, mag = haze_event(world, eid, kind, lev_pos, b, t, pb, pt, par, run_model and rng.random() < 0.3,
-                                     mix=mix, reuse=reuse.get(kind))
+                                     mix=mix, reuse=reuse.get(kind), route=route, cen2=cen2, pu=1)
     inv = b['set'] and t['set'] and b['x'] < t['x']
-    cls = '%s:%s%s:b=%s:t=%s%s' % (kind, grid, hist, cb, ct, ':inverted' if inv else '')
+    cls = '%s:%s%s:b=%s:t=%s%s%s' % (kind, grid, hist, cb, ct, ':inverted' if inv else '', route_tag(route))
     return e, cls, recipe, info
 
 
@@ -876,8 +1044,8 @@ def run_random(ctx, X, rng, nworlds, per_world, model_max_n, pre=None):
         for j, (e, cls, recipe, info) in enumerate(seq):
             add_event(events, meta, e, cls, dict(recipe, wsub=wsub, long=j), info)
     badids = judge(ctx, events, meta, 'random')
-    for se, adm, sigma, mag, cls, vec in post:
-        exact_checks(ctx, se, adm, sigma, mag, cls, vec)
+    for se, adm, sigma, mag, cls, vec, f in post:
+        exact_checks(ctx, se, adm, sigma, mag, cls, vec, f)
     ctx.traces += len(events)
     ctx.note('binding B: %d grids (%d skipped: derived levels not decreasing) + %d long-lived worlds, %d events' % (nw, skipped, nlong, len(events)))
     ctx.add_sample(dict(trace_event={k: (v if not isinstance(v, list) or len(v) < 12 else v[:12]) for k, v in events[-1].items()}))
@@ -1042,16 +1210,55 @@ def run(ctx):
     ctx.bounds = dict(tier=ctx.tier,
                       exhaustive='<=%d layers, spacings {1,2} dex in any order, bounds/deck on every half-dex position from one dex above the top to one dex below the surface and "unset", both orders; clear transmittances in {0,1/2,1}' % (3 if q else 5),
                       vectors='every exported (grid, bounds/deck) of the %d-layer export config through prepare() and model()' % (3 if q else 4) + ' on explicit-level grids and, for uniform grids, SimplePressureProfile',
+                      routes='MC_CloudsRoutes: two uses of one contribution object through any of the routes prepare / model / model_contrib / prepare_each / model_full_contrib with any bounds, grids of <= %d layers' % (2 if q else 3),
                       slabs='MC_CloudsSlabs: 2 slabs of any kind on grids of <= 2 layers exhaustively; simulated lists of 2..3 slabs on <= 3 layers replayed on real objects; random lists of 2..3 slabs on random grids of <= %d layers' % SLABS_MAX_N,
                       traces='random grids 2..100 layers (simple / array / explicit levels), random bounds of 6 classes, random magnitudes, Lee radius 0.01..3 um, Q 1..80')
     ctx.assumptions = ['log10 of pressures is evaluated by the harness (positions round(1e6 log10 P)); random bounds are either float-identical to an exposed level / layer pressure or at least 2e-4 dex away from all of them',
                        'Lee Qext law evaluated by the harness from the documented formula (uninterpreted positive table for the spec)',
-                       'partial layers: any value in [0, declared magnitude] is accepted; inverted bounds: the [min,max] window or an empty window',
+                       'partial layers: the documented rule of each contribution (grey haze: covered fraction of the layer in log pressure, '
+                       'Lee haze: selection by layer pressure), 1e-12 on exported grids, position-rounding tolerance 2/width on random grids; '
+                       'inverted bounds: the [min,max] window or an empty window',
                        'TLC + CommunityModules Json/IOUtils; spec/Dec.tla decimal arithmetic for the depth integral',
                        'gas opacity fixture: flat cross-section through the real InterpolatingOpacity / AbsorptionContribution',
                        'frame condition: the arrays a model exposes (EXPOSED in the driver) are compared after every prepare() / model() with a private copy of what the same model computed for the same settings with gas absorption only']
     ctx.check_spec('exhaustive', 'MC_Clouds', 'MC_Clouds_%s.cfg' % ctx.tier, need_actions=('EvalDeck', 'EvalFlat', 'EvalLee'))
     ctx.expect_refuted('maxnorm-refuted', 'MC_Clouds', 'MC_Clouds_maxnorm.cfg', 'DeclaredMagnitudeInside')
+    # round 4: the design-level runs of the partial-layer rule and of the routes run beside the bindings (collected at the end)
+    from concurrent.futures import ThreadPoolExecutor
+    pool = ThreadPoolExecutor(max_workers=3)
+    # (label, module, cfg, invariant TLC must refute | None: all invariants hold)
+    bg = [('edges-refuted', 'MC_Clouds', 'MC_Clouds_edges.cfg', 'WindowExtentConserved'),
+          ('routes', 'MC_CloudsRoutes', 'MC_CloudsRoutes_%s.cfg' % ctx.tier, None)]
+    bg += [('routes-%s-refuted' % w, 'MC_CloudsRoutes', 'MC_CloudsRoutes_%s.cfg' % w, 'IntegratedOwnRange')
+           for w in (['working', 'nothing'][(ctx.seed + 1) % 2:][:1] if q else ['working', 'nothing'])]
+    if not q:
+        bg.append(('routes-sum-mechanism-blind', 'MC_CloudsRoutes', 'MC_CloudsRoutes_blind.cfg', None))
+    bg = [(j, pool.submit(run_tlc, j[1], j[2], workers=2, allow_violation=True, coverage=(j[0] == 'routes' and not q))) for j in bg]
+    try:
+        run_rest(ctx, q)
+    except BaseException:
+        for _, f in bg:
+            f.cancel()
+        pool.shutdown(wait=True)
+        raise
+    for (label, module, cfg, refute), f in bg:
+        res = f.result()
+        ctx.add_tlc(label, res, counts=refute is None)
+        if refute is None:
+            if res.violated:
+                raise Machinery('spec %s/%s violates %s\n%s' % (module, cfg, res.violated, res.error_trace))
+            if res.distinct == 0 or res.depth < 3:
+                raise Machinery('vacuous: %s/%s explored %d states to depth %d' % (module, cfg, res.distinct, res.depth))
+            if label == 'routes' and not q:
+                for a in ('Use', 'Finish'):
+                    if res.action_cov.get(a, (0, 0))[1] == 0:
+                        raise Machinery('vacuous: action %s of %s never taken in %s' % (a, module, cfg))
+        elif res.violated != refute:
+            raise Machinery('expected TLC to refute %s in %s/%s, got %r' % (refute, module, cfg, res.violated))
+    pool.shutdown()
+
+
+def run_rest(ctx, q):
     ctx.check_spec('mix', 'MC_CloudsMix', 'MC_CloudsMix_%s.cfg' % ctx.tier, need_actions=('Add', 'EarlyExit', 'Finish'))
     ctx.expect_refuted('mix-any-refuted', 'MC_CloudsMix', 'MC_CloudsMix_any.cfg', 'SumOrLicensed')
     # several clouds / hazes in one model: each keeps its own range because nobody writes into the arrays the model
@@ -1073,6 +1280,7 @@ def run(ctx):
     nev = run_vectors(ctx, vecs, X, rng)
     ctx.note('binding A: %d exported vectors, %d real runs judged' % (len(vecs), nev))
     pre = run_slab_vectors(ctx, X, 100 if q else 300)
+    pre = run_route_vectors(ctx, X, 60 if q else 300, pre)
     run_random(ctx, X, rng, 24 if q else 400, 30 if q else 60, 40 if q else 100, pre=pre)
     ctx.note('mix events: %(mix_events)d; tangent layers opaque in the line cores AND transparent in the windows with haze present: '
              '%(mixed_layers)d; layers under the tau>10 licence at every wavenumber: %(licensed_layers)d' % STATS)
@@ -1106,7 +1314,14 @@ def replay(ctx, violations):
                     return se
             raise Machinery('replay: slab event %r not produced again' % vec['sub'])
 
-        if vec.get('slabvec'):
+        if vec.get('routevec'):
+            outs = route_vector_events(X, vec['routevec'], vec['pclass'], eid, cache)
+            e, cls, info, adm, sigma, mag, f, inv = outs[vec['use']]
+            if v['cls'] != base_cls:
+                exact_checks(ctx, e, adm, sigma, mag, base_cls, vec, f)
+                continue
+            e = dict(e, id=eid)
+        elif vec.get('slabvec'):
             e, cls, info, subs, specs = slab_vector_events(X, vec['slabvec'], vec['pclass'], vec['with_abs'], eid, cache)
             if vec.get('sub'):
                 hit = [x for x in subs if x[3] == vec['sub']]
@@ -1114,7 +1329,7 @@ def replay(ctx, violations):
                     raise Machinery('replay: slab event %r not produced again' % vec['sub'])
                 se, scls, sinfo, sub, sigma, mag, idx = hit[0]
                 if v['cls'] != base_cls:
-                    exact_checks(ctx, se, specs[idx]['adm'], sigma, mag, base_cls, vec)
+                    exact_checks(ctx, se, specs[idx]['adm'], sigma, mag, base_cls, vec, specs[idx].get('f'))
                     continue
                 e = se
             e = dict(e, id=eid)
@@ -1151,9 +1366,9 @@ def replay(ctx, violations):
                 pars = dict(flat=dict(mix=3.0e-27), lee=dict(a=0.7, q=40.0, mix=2.0e-12))
                 e, info, sigma, mag = haze_event(world, eid, base['kind'], base['lev'], base['b'], base['t'],
                                                  bound_value(base['b'], pos2p), bound_value(base['t'], pos2p), pars[base['kind']], True,
-                                                 mix=want_mix)
+                                                 mix=want_mix, pu=0)
                 if v['cls'] != base_cls and not want_mix:
-                    exact_checks(ctx, e, base['adm'], sigma, mag, base_cls, vec)
+                    exact_checks(ctx, e, base['adm'], sigma, mag, base_cls, vec, base.get('f'))
                     continue
             if want_mix:
                 e = dict(info['_mix'], id=eid)
